@@ -19,6 +19,13 @@ export CARGO_TARGET_DIR=/tmp/seedeval-target CARGO_NET_OFFLINE=true
 LOG="$OUT/confirm.log"; : > "$LOG"
 demo_run() { ( cd "$WT" && cp "$OUT/demo.rs" tests/zz_seed_demo.rs && cargo test --offline --features full --test zz_seed_demo 2>&1 | grep -E "^test result|error(\[|:)|FAILED|panicked" | head -5 ); }
 res_without="n/a"; res_with="n/a"
+if [ ! -f "$OUT/demo.rs" ] && [ -f "$S/demo.sh" ]; then
+  # script-style demonstration: exit 0 = passes; run from the worktree root with the seed's files next to it
+  mkdir -p "$OUT/demo_files"; cp -r "$S"/* "$OUT/demo_files/" 2>/dev/null; rm -f "$OUT/demo_files/patch.diff" "$OUT/demo_files/meta.json"
+  mkdir -p "$WT/_seed/$X"; cp -r "$S"/* "$WT/_seed/$X/"
+  echo "== demo.sh without patch" >> "$LOG"; ( cd "$WT" && bash "_seed/$X/demo.sh" ) >> "$LOG" 2>&1 && res_without=pass || res_without=FAIL
+  ( cd "$WT" && git checkout -q -- . 2>/dev/null )
+fi
 if [ -f "$OUT/demo.rs" ]; then
   # register the demo as a test target (Cargo.toml lists tests explicitly)
   printf '\n[[test]]\nname = "zz_seed_demo"\npath = "tests/zz_seed_demo.rs"\nrequired-features = ["full"]\n' >> "$WT/Cargo.toml"
@@ -31,6 +38,10 @@ if [ -f "$OUT/demo.rs" ]; then
   if grep -q "test result: ok" "$LOG.with" && ! grep -qE "FAILED|error" "$LOG.with"; then res_with=pass; else res_with=FAIL; fi
   rm -f "$LOG.with" "$WT/tests/zz_seed_demo.rs"
   ( cd "$WT" && git checkout -q Cargo.toml 2>/dev/null; git apply "$OUT/patch.diff" 2>/dev/null; true )
+fi
+if [ ! -f "$OUT/demo.rs" ] && [ -f "$S/demo.sh" ]; then
+  echo "== demo.sh with patch" >> "$LOG"; ( cd "$WT" && bash "_seed/$X/demo.sh" ) >> "$LOG" 2>&1 && res_with=pass || res_with=FAIL
+  ( cd "$WT" && git checkout -q -- . 2>/dev/null; git apply "$OUT/patch.diff" 2>/dev/null; rm -rf "_seed" )
 fi
 echo "== repo test suite with patch" >> "$LOG"
 ( cd "$WT" && rm -f tests/zz_seed_demo.rs && git checkout -q -- Cargo.toml 2>/dev/null; git apply --check "$OUT/patch.diff" 2>/dev/null && git apply "$OUT/patch.diff"; cargo test --workspace --no-fail-fast --offline 2>&1 | grep -E "^test result|^error: test failed|could not compile" ) > "$LOG.suite" 2>&1
